@@ -26,6 +26,46 @@ CHECKS = {
         "Trusts torch/tensordict indexing; transitions built as train_off_policy builds them; widths <= capacity.",
         "DESIGN.md#c09",
     ),
+    "C01": (
+        True,
+        "exploration",
+        "structural equality walker + alias sanitizer (storage pointers / object identity) + mutation-visibility fingerprints + paired-learn differential on real clone()/Mutations/TournamentSelection",
+        "Seeded histories (learn, five mutation kinds, clone, tournament round) on all 11 algorithms x observation families, "
+        "then k sibling clones are compared leaf by leaf with the parent (target re-sync exception encoded), probed for "
+        "shared memory / shared containers and for cross-agent effects of learn / mutation / discard; held on the "
+        "executions produced.",
+        "CPU only; accelerate/compile paths not driven; float tolerance for paired updates (moments rel 1e-4, weights 2.1 lr).",
+        "DESIGN.md#c01",
+    ),
+    "C12": (
+        True,
+        "exploration",
+        "history recording at the client boundary + sequential reference loop over scripted PettingZoo envs with self-identifying observations; seeded worker delays; per-scenario forked driver with watchdog",
+        "Real AsyncPettingZooVecEnv / auto-reset wrapper driven with seeded action batches; every returned slice compared "
+        "with independently stepped reference copies under the statement's reset rule; completion-order diversity measured.",
+        "Only the fork start method; scripted envs instead of real games; placeholder values for absent agents not judged.",
+        "DESIGN.md#c12",
+    ),
+    "C15": (
+        True,
+        "exploration",
+        "boundary wrappers on preprocess_observation (all entry points) + numpy reference model + batch-vs-single and agent/env-permutation metamorphic checks on real agents",
+        "Every supported space/dtype/input form is prepared by the real code and compared with a reference written from the "
+        "statement; greedy actions / values of real DQN, DDPG, TD3, PPO, IPPO, MADDPG, MATD3 agents are compared across "
+        "batch compositions and agent/env orderings.",
+        "Infinite bounds: documented bypass accepted; deterministic networks only; tolerance 1e-5.",
+        "DESIGN.md#c15",
+    ),
+    "C17": (
+        True,
+        "exploration",
+        "sys.monitoring frame taps inside PPO.learn / IPPO._learn_individual + float64 GAE reference + id-encoded rollouts (row alignment) + metamorphic no-leak runs",
+        "Rollouts in the exact training-loop format with injective (agent, env, step) ids in every field; tapped "
+        "advantages/returns/bootstrap values and the flattened minibatch rows are decoded and compared with the recursion "
+        "of the statement; exhaustive done placements for T<=5.",
+        "Taps read locals by name (lost observability => inconclusive, never held); vector and dict observations only.",
+        "DESIGN.md#c17",
+    ),
 }
 
 NOT_YET = "check not built yet in this round (framework under construction); see DESIGN.md section for the plan"
